@@ -454,32 +454,24 @@ Definition find (c : Z) (s : list Z) (start : Z) : Z := find_from c s 0 start.
 Definition slice_to (s : list Z) (e : Z) : list Z := firstn (Z.to_nat e) s.
 Definition slice_from (s : list Z) (b : Z) : list Z := skipn (Z.to_nat b) s.
 
-(* s.count(c) and s.count(ab) (non-overlapping, left to right) *)
-Fixpoint count_char (c : Z) (s : list Z) : Z :=
+(* the inner while of _parseparam: a scan from the left.  [s] is the text
+   from index [e] on, [quoted] the flag; the result is the value of [end]
+   when the loop is left.  Inside a quoted string a backslash escapes the
+   next character (end += 1 twice; that is len(s) + 1 when the backslash is the last
+   character, which the slices below take as len(s), as Python does); a
+   double quote toggles the flag; the first ';' outside quotes breaks. *)
+Fixpoint scan_end (s : list Z) (quoted : bool) (e : Z) : Z :=
   match s with
-  | [] => 0
-  | x :: r => (if x =? c then 1 else 0) + count_char c r
-  end.
-Fixpoint count_pair (a b : Z) (s : list Z) : Z :=
-  match s with
-  | [] => 0
-  | x :: r => match r with
-              | y :: r' => if (x =? a) && (y =? b) then 1 + count_pair a b r'
-                           else count_pair a b r
-              | [] => 0
-              end
-  end.
-
-(* the inner while of _parseparam; the position moves to a later ';' or to
-   -1, so len(s) rounds are enough *)
-Definition quote_open (s : list Z) (e : Z) : bool :=
-  negb ((count_char 34 (slice_to s e) - count_pair 92 34 (slice_to s e)) mod 2
-        =? 0).
-Fixpoint pp_end (fuel : nat) (s : list Z) (e : Z) : Z :=
-  match fuel with
-  | O => e
-  | S f => if (0 <? e) && quote_open s e
-           then pp_end f s (find 59 s (e + 1)) else e
+  | [] => e                                        (* end < len(s) fails *)
+  | c :: r =>
+      if quoted && (c =? 92) then
+        match r with
+        | _ :: r' => scan_end r' quoted (e + 2)
+        | [] => e + 2
+        end
+      else if c =? 34 then scan_end r (negb quoted) (e + 1)
+      else if (c =? 59) && negb quoted then e      (* break *)
+      else scan_end r quoted (e + 1)
   end.
 
 (* list(_parseparam(s)); every round drops at least the leading ';' *)
@@ -490,8 +482,7 @@ Fixpoint parseparam_fuel (fuel : nat) (s : list Z) : list (list Z) :=
       match s with
       | c :: s1 =>
           if c =? 59 then
-            let e1 := pp_end (List.length s1) s1 (find 59 s1 0) in
-            let e := if e1 <? 0 then len s1 else e1 in
+            let e := scan_end s1 false 0 in
             strip (slice_to s1 e) :: parseparam_fuel f (slice_from s1 e)
           else []
       | [] => []
@@ -592,13 +583,6 @@ Definition key_ok (k : list Z) : Prop :=
   lower k = k /\ stripped k = true.
 Definition main_ok (v : list Z) : Prop :=
   ~ In 59 v /\ ~ In 34 v /\ stripped v = true.
-(* no value that is followed by another parameter ends in a backslash *)
-Fixpoint no_bs_before_next (ps : list (list Z * list Z)) : Prop :=
-  match ps with
-  | [] => True
-  | kv :: t => (t <> [] -> last (snd kv) 0 <> 92) /\ no_bs_before_next t
-  end.
-
 (* ---------------------------------------------------- correspondence *)
 Definition enc_out {A} (enc : A -> V) (o : outcome A) : V :=
   match o with Ok a => enc a | Raised e => VX e end.
